@@ -51,7 +51,7 @@ func vfGenC13(t *rapid.T) vfC13Case {
 		c.Plotted = append(c.Plotted, rapid.IntRange(0, 3).Draw(t, "plotted") == 0)
 	}
 	nc := rapid.IntRange(2, 6).Draw(t, "callers")
-	kinds := []string{"plot", "plot", "mine", "mine", "stop", "stop", "remove", "delete", "ids", "infos", "proofs", "bulk:plot", "bulk:mine", "bulk:stop", "flood:plot", "flood:mine", "churn", "churn"}
+	kinds := []string{"plot", "plot", "mine", "mine", "stop", "stop", "remove", "delete", "ids", "infos", "proofs", "bulk:plot", "bulk:mine", "bulk:stop", "flood:plot", "flood:mine", "churn", "churn", "reader", "readers"}
 	for i := 0; i < nc; i++ {
 		var ops []vfC13Op
 		for j := rapid.IntRange(1, 8).Draw(t, "nops"); j > 0; j-- {
@@ -61,6 +61,9 @@ func vfGenC13(t *rapid.T) vfC13Case {
 			}
 			if op.K == "churn" {
 				op.N = rapid.SampledFrom([]int{20, 200, 1000}).Draw(t, "churn")
+			}
+			if op.K == "readers" {
+				op.N = rapid.SampledFrom([]int{8, 33, 64, 129}).Draw(t, "readers") // around and above the worker pool size
 			}
 			ops = append(ops, op)
 		}
@@ -209,6 +212,37 @@ func vfC13Run(c vfC13Case, ctx *vlib.Ctx) *vlib.Failure {
 					sk.WorkSpaceInfos(engine.WorkSpaceStateFlags(op.N))
 				case op.K == "proofs":
 					sk.GetProofs(context.Background(), engine.SFMining, pocutil.Hash{2}, false)
+				case op.K == "reader" || op.K == "readers":
+					// proof readers drained to EOF, one or many in flight at once; the context ends with the request
+					n := 1
+					if op.K == "readers" {
+						n = op.N
+					}
+					var rw sync.WaitGroup
+					for i := 0; i < n; i++ {
+						rw.Add(1)
+						go func(i int) {
+							defer rw.Done()
+							cx, cancel := context.WithCancel(context.Background())
+							defer cancel()
+							var r engine.ProofReader
+							var err error
+							if i%3 == 0 {
+								r, err = sk.GetProofReader(cx, sid, pocutil.Hash{3}, false)
+							} else {
+								r, err = sk.GetProofsReader(cx, engine.SFAll, pocutil.Hash{4}, false)
+							}
+							if err != nil || r == nil {
+								return
+							}
+							for {
+								if _, err := r.Read(); err != nil {
+									return
+								}
+							}
+						}(i)
+					}
+					rw.Wait()
 				case len(op.K) > 5 && op.K[:5] == "bulk:":
 					sk.ActOnWorkSpaces(engine.WorkSpaceStateFlags(op.N), vfActionOf(op.K[5:]))
 				case op.K == "churn":
